@@ -18,6 +18,11 @@
 //	                                      after the JSON round trip
 //	N <hexname>                           file name through ToJson/FromJson -> hex of the name read back
 //	run <hexsource> <filename>            api.RunCode -> hex(stdout+stderr) errkind
+//	K all                                 aliasing histories on the real code (oracle inside the harness): results of
+//	    -> ok <n> | FAIL <scenario>: ...  ToJson/ToJavaScript retained across later calls on OTHER sets, returned slices
+//	                                      overwritten up to capacity, FromJson/Read input buffers mutated and reused after
+//	                                      the call, data handed to a Write callback mutated afterwards; earlier results
+//	                                      and objects must be unchanged
 //	H <step;step;...>                     a history on ONE FileSet object:
 //	    a,FILE      AddFileWithCap + SetLinesForContent + AddLineColumnInfo per info
 //	    s,FILE      AddFile + the real scanner over the content (line table and //line infos come from the scanner)
@@ -30,7 +35,10 @@
 package main
 
 import (
+	"bytes"
+	"encoding/json"
 	"fmt"
+	"reflect"
 	"strconv"
 	"strings"
 
@@ -364,6 +372,172 @@ func opH(hist string) string {
 	return strings.Join(outs, "|")
 }
 
+// ---------------------------------------------------------------- aliasing histories
+
+func aliasSet(tag string, nfiles, lines int) *token.FileSet {
+	fs := token.NewFileSet()
+	for i := 0; i < nfiles; i++ {
+		var sb strings.Builder
+		for l := 0; l < lines+i; l++ {
+			fmt.Fprintf(&sb, "%s line %d of file %d\n", tag, l, i)
+		}
+		c := []byte(sb.String())
+		f := fs.AddFile(fmt.Sprintf("%s_%d.wa", tag, i), -1, len(c))
+		f.SetLinesForContent(c)
+		if i%2 == 1 {
+			f.AddLineColumnInfo(len(c)/2, tag+"_gen.wa", 100+i, 1)
+		}
+	}
+	return fs
+}
+
+func allAnswers(fs *token.FileSet) string {
+	var sb strings.Builder
+	step := 1
+	if fs.Base() > 4000 {
+		step = 7
+	}
+	for p := 0; p <= fs.Base()+1; p += step {
+		sb.WriteString(ans2(fs, p))
+		sb.WriteByte(',')
+	}
+	return sb.String()
+}
+
+func clone(b []byte) []byte { return append([]byte(nil), b...) }
+
+func decodeAnswers(js []byte) (string, error) {
+	fs := token.NewFileSet()
+	if err := fs.FromJson(js); err != nil {
+		return "", err
+	}
+	return allAnswers(fs), nil
+}
+
+func scribble(v reflect.Value) {
+	switch v.Kind() {
+	case reflect.Slice:
+		for i := 0; i < v.Len(); i++ {
+			scribble(v.Index(i))
+		}
+	case reflect.Struct:
+		for i := 0; i < v.NumField(); i++ {
+			scribble(v.Field(i))
+		}
+	case reflect.Int:
+		if v.CanSet() {
+			v.SetInt(-7)
+		}
+	}
+}
+
+func opK() string {
+	n := 0
+	type sz struct{ na, la, nb, lb int }
+	for _, z := range []sz{{3, 5, 2, 9}, {2, 9, 3, 5}, {1, 1, 1, 1}, {4, 20, 1, 2}, {1, 2, 4, 20}} {
+		big := aliasSet("big", 24, 30)
+		A := aliasSet("aaa", z.na, z.la)
+		B := aliasSet("b", z.nb, z.lb)
+		wantA, wantB, wantBig := allAnswers(A), allAnswers(B), allAnswers(big)
+
+		// 1. results retained across later ToJson calls on other sets
+		for round := 0; round < 3; round++ {
+			j0 := big.ToJson()
+			c0 := clone(j0)
+			jA := A.ToJson()
+			cA := clone(jA)
+			jB := B.ToJson()
+			cB := clone(jB)
+			j1 := big.ToJson()
+			if !bytes.Equal(jA, cA) {
+				return fmt.Sprintf("FAIL retained-tojson: the bytes ToJson(A) returned changed after ToJson of another set (sizes %v round %d)", z, round)
+			}
+			if !bytes.Equal(jB, cB) || !bytes.Equal(j0, c0) || !bytes.Equal(j1, c0) {
+				return fmt.Sprintf("FAIL retained-tojson: a retained ToJson result changed after later calls (sizes %v round %d)", z, round)
+			}
+			got, err := decodeAnswers(jA)
+			if err != nil {
+				return fmt.Sprintf("FAIL retained-tojson: FromJson of the retained ToJson(A) result fails: %v", err)
+			}
+			if got != wantA {
+				return fmt.Sprintf("FAIL retained-tojson: FromJson of the retained ToJson(A) result maps positions differently from A (sizes %v)", z)
+			}
+			if got, err := decodeAnswers(jB); err != nil || got != wantB {
+				return fmt.Sprintf("FAIL retained-tojson: retained ToJson(B) result decodes wrongly (%v)", err)
+			}
+			n += 6
+		}
+		cA, cB := clone(A.ToJson()), clone(B.ToJson())
+
+		// 2. the caller overwrites the returned slice up to its capacity
+		jA := A.ToJson()
+		full := jA[:cap(jA)]
+		for i := range full {
+			full[i] = 'X'
+		}
+		if !bytes.Equal(A.ToJson(), cA) || !bytes.Equal(B.ToJson(), cB) || allAnswers(A) != wantA || allAnswers(big) != wantBig {
+			return fmt.Sprintf("FAIL overwrite-result: overwriting the slice returned by ToJson changed a later result or the set (sizes %v)", z)
+		}
+		n += 4
+
+		// 3. the input buffer of FromJson is mutated and reused after the call
+		buf := make([]byte, len(cA)+len(cB))
+		in := buf[:copy(buf, cA)]
+		fsA := token.NewFileSet()
+		if err := fsA.FromJson(in); err != nil {
+			return "FAIL input-reuse: " + err.Error()
+		}
+		in2 := buf[:copy(buf, cB)]
+		fsB := token.NewFileSet()
+		if err := fsB.FromJson(in2); err != nil {
+			return "FAIL input-reuse: " + err.Error()
+		}
+		for i := range buf {
+			buf[i] = 'x'
+		}
+		if allAnswers(fsA) != wantA || allAnswers(fsB) != wantB {
+			return fmt.Sprintf("FAIL input-reuse: a set read with FromJson changed when the input buffer was reused (sizes %v)", z)
+		}
+		// same through Read with a caller-supplied decoder
+		fsR := token.NewFileSet()
+		in3 := buf[:copy(buf, cA)]
+		if err := fsR.Read(func(x interface{}) error { return json.Unmarshal(in3, x) }); err != nil {
+			return "FAIL input-reuse: " + err.Error()
+		}
+		for i := range buf {
+			buf[i] = 0
+		}
+		if allAnswers(fsR) != wantA {
+			return fmt.Sprintf("FAIL input-reuse: a set read with Read changed when the decoder's buffer was cleared (sizes %v)", z)
+		}
+		n += 3
+
+		// 4. data handed to a Write callback is kept and mutated by the callback's owner
+		var kept1, kept2 interface{}
+		A.Write(func(d interface{}) error { kept1 = d; return nil })
+		A.Write(func(d interface{}) error { kept2 = d; return nil })
+		scribble(reflect.ValueOf(kept1))
+		if allAnswers(A) != wantA {
+			return fmt.Sprintf("FAIL write-callback: mutating the data passed to a Write callback changed the set (sizes %v)", z)
+		}
+		if js, err := json.MarshalIndent(kept2, "", "\t"); err != nil || !bytes.Equal(js, cA) {
+			return fmt.Sprintf("FAIL write-callback: data of a second Write differs after the first one's data was mutated (sizes %v)", z)
+		}
+		n += 2
+
+		// 5. ToJavaScript results retained
+		s1 := A.ToJavaScript()
+		k1 := clone(s1)
+		s2 := B.ToJavaScript()
+		_ = big.ToJavaScript()
+		if !bytes.Equal(s1, k1) || bytes.Equal(s1, s2) && wantA != wantB {
+			return fmt.Sprintf("FAIL retained-tojavascript (sizes %v)", z)
+		}
+		n++
+	}
+	return fmt.Sprintf("ok %d", n)
+}
+
 func main() {
 	vh.Loop(func(f []string, line string) string {
 		if len(f) == 0 {
@@ -380,6 +554,8 @@ func main() {
 			return opW(vh.UnHex(f[1]))
 		case f[0] == "N" && len(f) == 2:
 			return opN(vh.UnHex(f[1]))
+		case f[0] == "K" && len(f) == 2:
+			return opK()
 		case f[0] == "H" && len(f) == 2:
 			return opH(f[1])
 		case f[0] == "run" && len(f) == 3:
